@@ -18,10 +18,21 @@ import tlc  # noqa: E402
 PY = '/venv/bin/python'
 
 
+CONV = {}
+
+
 def record(prop, work):
     out = os.path.join(work, prop + '.ndjson')
     env = dict(os.environ, PYTHONHASHSEED='0')
-    p = subprocess.run([PY, os.path.join(HERE, 'drive.py'), prop, 'quick', '7', '0', '16', out, '{}'], env=env,
+    gen = '{}'
+    nsh = '16'
+    if prop in ('C14', 'C20'):          # (their traces contain the conversations generated from Conn.tla)
+        if not CONV:
+            import s2c
+            CONV.update(s2c.gen_conn('quick', 7, work)[0])
+        gen = json.dumps(CONV)
+        nsh = '1' if prop == 'C14' else '16'
+    p = subprocess.run([PY, os.path.join(HERE, 'drive.py'), prop, 'quick', '7', '0', nsh, out, gen], env=env,
                        stdout=subprocess.PIPE, stderr=subprocess.STDOUT, text=True)
     assert p.returncode == 0, p.stdout[-2000:]
     return [json.loads(l) for l in open(out)]
@@ -54,6 +65,12 @@ CORRUPTIONS = [
      'object world: an object no longer shares the container the user passed in'),
     ('C19', lambda e: e['a'] == 'Observe' and e.get('len', 0) >= 2,
      lambda e: e['iter_names'].reverse(), 'iteration order reversed'),
+    ('C14', lambda e: e['a'] == 'ConnFrame' and e['kind'] == 'method',
+     lambda e: e.__setitem__('sync', not e['sync']), 'conversation: synchronous flag of a decoded method flipped'),
+    ('C14', lambda e: e['a'] == 'ConnFrame' and e['name'] == 'Channel.OpenOk',
+     lambda e: e.__setitem__('name', 'Channel.CloseOk'), 'conversation: a decoded Channel.OpenOk reported as Channel.CloseOk (illegal next frame)'),
+    ('C20', lambda e: e['a'] == 'ConnFrame' and e['kind'] == 'body',
+     lambda e: e.__setitem__('wire', e['wire'] + 1), 'conversation: a body frame reported one byte longer than marshalled'),
     ('C07', lambda e: e['a'] == 'CutSet' and len(e['cuts']) > 3,
      lambda e: e['cuts'][2].__setitem__('r', 'ok'), 'one strict prefix reported as a frame'),
 ]
@@ -67,7 +84,14 @@ def main():
         for prop, pick, mutate, what in CORRUPTIONS:
             if prop not in traces:
                 traces[prop] = record(prop, work)
-            events = copy.deepcopy(traces[prop])[:1500]
+            events = copy.deepcopy(traces[prop])
+            if prop in ('C14', 'C20'):       # from the first conversation on
+                first = min(k_ for k_, e_ in enumerate(events) if e_['a'] == 'ConnReset')
+                events = events[first:first + 1500]
+            else:
+                events = events[:1500]
+            for k_, e_ in enumerate(events):
+                e_['id'] = k_ + 1
             cand = [i for i, e in enumerate(events) if pick(e)]
             if not cand:
                 print('%-4s %-60s NO-CANDIDATE' % (prop, what))
@@ -78,7 +102,7 @@ def main():
             tf = os.path.join(work, 'c.ndjson')
             tlc.write_events(tf, events)
             rej, res = tlc.validate_trace(tf, len(events))
-            ids = sorted(set(r['id'] for r in rej if r['prop'] == prop))
+            ids = sorted(set(r['id'] for r in rej if r['prop'] in (prop, 'MACHINERY')))
             ok = ids == [events[i]['id']]
             print('%-4s %-60s %s (rejected events: %s, expected [%d])' % (prop, what, 'OK' if ok else 'FAIL', ids[:6], events[i]['id']))
             bad += 0 if ok else 1
